@@ -16,7 +16,7 @@ def run(ctx):
   con = construct(ss)
   g, facts = std_facts(prog, ss)
   rets = [n for n in g.live_nodes() if n.kind == 'return']
-  ctx.expect_at_least('returns of _should_skip', len(rets), 3)
+  ctx.expect_at_least('returns of _should_skip', len(rets), 1)
   # the "known" test: the condition under which False is returned
   known_test = None
   for n in g.live_nodes():
